@@ -202,7 +202,7 @@ func (v *verifier) inHole(ref *rowRef, k int) bool {
 		return false
 	}
 	for _, f := range v.L.Flushes {
-		if f.BeginImg > k {
+		if f.BeginImg > k || f.Err != "" {
 			continue
 		}
 		ownData := f.Kind == "data" && f.Shard == ref.entry.Part.Shard && f.Family == ref.entry.Part.Family
